@@ -60,14 +60,12 @@ public:
     writeCDATAChar(
             const XalanDOMChar  chars[],
             size_type           start,
-            size_type           /*length*/,
+            size_type           length,
             bool&               /* outsideCDATA */)
     {
         assert( chars != 0 );
 
-        write(chars[start]);
-
-        return start;
+        return write(chars, start, length);
     }
 
     /**
@@ -89,7 +87,10 @@ public:
             const XalanDOMChar*     data,
             size_type               theLength)
     {
-        write(data, theLength);
+        for(size_type i = 0; i < theLength; ++i)
+        {
+            i = write(data, i, theLength);
+        }
     }
 
     /**
@@ -100,7 +101,10 @@ public:
             const XalanDOMChar*      data,
             size_type                theLength)
     {
-        write(data, theLength);
+        for(size_type i = 0; i < theLength; ++i)
+        {
+            i = write(data, i, theLength);
+        }
     }
 
     void
@@ -163,14 +167,54 @@ public:
     }
 
 
+    /**
+     * Writes one character, which is either a single code unit or a
+     * surrogate pair.  An unpaired surrogate is an error.
+     *
+     * @return The index of the last code unit written.
+     */
     size_type
     write(
             const value_type    chars[],
             size_type           start,
-            size_type           /*length*/)
+            size_type           length)
     {
-        write(chars[start]);
-        
+        const value_type    ch = chars[start];
+
+        if (isUTF16HighSurrogate(ch) == true)
+        {
+            if (start + 1 >= length)
+            {
+                throwInvalidUTF16SurrogateException(
+                    ch,
+                    0,
+                    getMemoryManager());
+            }
+            else if (isUTF16LowSurrogate(chars[start + 1]) == false)
+            {
+                throwInvalidUTF16SurrogateException(
+                    ch,
+                    chars[start + 1],
+                    getMemoryManager());
+            }
+            else
+            {
+                write(ch);
+                write(chars[++start]);
+            }
+        }
+        else if (isUTF16LowSurrogate(ch) == true)
+        {
+            throwInvalidUTF16SurrogateException(
+                ch,
+                0,
+                getMemoryManager());
+        }
+        else
+        {
+            write(ch);
+        }
+
         return start;
     }
 
